@@ -118,7 +118,7 @@ def _optimized_interpreter(res):
     from vlib.runner import REPO
     chs = sorted(set([ch for ch, _ in VECTORS] + list(range(0, N_CHALLENGES, 4099)) +
                      list(range(11092000, 11092600)) + [N_CHALLENGES - 1]))
-    for flag in ("-O", "-OO", "-Werror"):
+    for flag in ("-O", "-OO", "-Werror", "-bb", "-Xdev"):
         r = subprocess.run([sys.executable, "-B", flag, "-c", _SUB, REPO, json.dumps(chs)],
                            capture_output=True, text=True)
         if r.returncode != 0:
@@ -172,6 +172,32 @@ def run_task(task):
     res.extra["repeated_calls"] = rep
     if task["idx"] == 0:
         _optimized_interpreter(res)
+        from vlib.afterfail import after_failures
+        for ch in (12345, 11092110, 16194276):
+            got = after_failures([lambda: f(None), lambda: f("12"), lambda: f([]), lambda: f(b"1"), lambda: f()],
+                                 lambda: f(ch))
+            if got != ("ok", ref_hash(ch)):
+                res.violation(Violation("hash_independent_of_call_history", {"challenge": ch, "after_failed_calls": True},
+                                        ref_hash(ch), list(got), "valid call made after calls that raised"))
+                break
+        res.extra["calls_after_failed_calls"] = 3
+        # the caller's arithmetic context is the caller's business: a thread that works with a tiny decimal
+        # precision (and traps everything) gets the same integers
+        import decimal
+        with decimal.localcontext() as ctx_:
+            ctx_.prec = 2
+            for sig in (decimal.Inexact, decimal.Rounded):
+                ctx_.traps[sig] = True
+            for ch in list(range(0, 3000, 7)) + list(range(890000, 16194277, 40009)):
+                try:
+                    got = f(ch)
+                except Exception as e:  # noqa
+                    got = f"raised {type(e).__name__}"
+                if got != ref_hash(ch):
+                    res.violation(Violation("hash_equals_c_arithmetic:any_decimal_context", {"challenge": ch, "decimal_prec": 2},
+                                            ref_hash(ch), got, "called with decimal.getcontext().prec == 2"))
+                    break
+        res.extra["calls_under_tiny_decimal_context"] = 811
     n = hi - lo
     res.evaluations += n
     res.nt_count += neg
@@ -228,6 +254,21 @@ def replay(case):
             raise Violation("hash_under_optimized_interpreter", case, ref_hash(ch), got)
         return
     _check_one(f, ch)
+    if case.get("decimal_prec"):
+        import decimal
+        with decimal.localcontext() as ctx_:
+            ctx_.prec = case["decimal_prec"]
+            try:
+                got = f(ch)
+            except Exception as e:  # noqa
+                got = f"raised {type(e).__name__}"
+        if got != ref_hash(ch):
+            raise Violation("hash_equals_c_arithmetic:any_decimal_context", case, ref_hash(ch), got)
+    if case.get("after_failed_calls"):
+        from vlib.afterfail import after_failures
+        got = after_failures([lambda: f(None), lambda: f("12"), lambda: f([]), lambda: f(b"1"), lambda: f()], lambda: f(ch))
+        if got != ("ok", ref_hash(ch)):
+            raise Violation("hash_independent_of_call_history", case, ref_hash(ch), list(got))
     if case.get("repeat"):
         for _ in range(3):
             got = f(ch)
